@@ -106,6 +106,12 @@ def run_text_shapes(chk, gen, runner, shapes, judge, stats, config=None, symboli
     for sigp, text, info in shapes:
         ra = runner.compile(text, backend='ir')
         if not ra.get('ok'):
+            if any(k in ra for k in ('panic', 'crash', 'hang')):
+                # the natively compiled compiler does not answer this shape at all: nothing the property promises about
+                # the shape is delivered (reported under the running property; the replay is the text itself)
+                what = 'panics (' + str(ra.get('panic'))[:120] + ')' if 'panic' in ra else 'aborts' if 'crash' in ra else 'does not terminate'
+                chk.violation(f"{sigp} native {'panic' if 'panic' in ra else 'crash' if 'crash' in ra else 'hang'}", f"the compiler {what} on: {text}", {'kind': 'text', 'text': text, 'config': config})
+                continue
             stats['rejected-natively'] = stats.get('rejected-natively', 0) + 1
             info_rej = getattr(judge, 'on_reject', None)
             if info_rej:
